@@ -110,6 +110,7 @@ class Registry:
 
 REG = Registry()
 DEFINE_SQRT_QUOTIENTS = [False]
+BOOL_TO_NUM = ["fork"]
 
 
 def new_registry():
@@ -560,6 +561,8 @@ class S:
 
     def real(self):
         if self.t.sort == "B":
+            if BOOL_TO_NUM[0] == "ite":
+                return S(tm.ite(self.t, tm.ONE, tm.ZERO))
             # bool -> number: fork (concrete 0/1), see DESIGN 2.3
             return S(tm.ONE if bool(self) else tm.ZERO)
         if self.t.sort == "I":
@@ -568,6 +571,8 @@ class S:
 
     def num(self):
         if self.t.sort == "B":
+            if BOOL_TO_NUM[0] == "ite":
+                return S(tm.ite(self.t, tm.IONE, tm.IZERO))
             return S(tm.IONE if bool(self) else tm.IZERO)
         return self
 
@@ -616,6 +621,8 @@ class S:
 
     # ---- arithmetic ----
     def _bin(self, o):
+        if isinstance(o, FS) and not isinstance(self, FS):
+            return None, None  # let the IEEE scalar's reflected operator handle it
         o = S.of(o)
         if o is None:
             return None, None
@@ -946,3 +953,104 @@ def s_max(a, b):
 def seed(s, index):
     """Attach a unit dual part (derivative seed) to a scalar."""
     return S(s.t, {index: tm.ONE})
+
+
+# ----------------------------------------------------------------------------------------------
+# IEEE scalars (QF_FP), for the bin-search / mask kernels only
+
+class FS(S):
+    """floating-point scalar: every operation rounds (RNE) like the real kernel does."""
+
+    __slots__ = ()
+
+    @staticmethod
+    def lift(x, prec):
+        if isinstance(x, FS):
+            return x
+        if isinstance(x, S):
+            if x.t.op != "const":
+                raise NotModelled("mixing symbolic reals with IEEE scalars")
+            return FS(tm.fconst(float(x.t.args[0]), prec))
+        if _is_num(x):
+            return FS(tm.fconst(float(x), prec))
+        return None
+
+    def real(self):
+        return self
+
+    def num(self):
+        return self
+
+    def nodual(self):
+        return self
+
+    def is_const(self):
+        return self.t.op == "fconst"
+
+    def concrete(self):
+        if self.t.op == "fconst":
+            return self.t.args[1]
+        raise NotModelled("concrete value of symbolic IEEE scalar")
+
+    def _o(self, o):
+        return FS.lift(o, self.t.sort)
+
+    def __add__(self, o):
+        o = self._o(o)
+        return NotImplemented if o is None else FS(tm.fop("add", self.t, o.t))
+
+    __radd__ = __add__
+
+    def __sub__(self, o):
+        o = self._o(o)
+        return NotImplemented if o is None else FS(tm.fop("sub", self.t, o.t))
+
+    def __rsub__(self, o):
+        o = self._o(o)
+        return NotImplemented if o is None else FS(tm.fop("sub", o.t, self.t))
+
+    def __mul__(self, o):
+        o = self._o(o)
+        return NotImplemented if o is None else FS(tm.fop("mul", self.t, o.t))
+
+    __rmul__ = __mul__
+
+    def __truediv__(self, o):
+        o = self._o(o)
+        return NotImplemented if o is None else FS(tm.fop("div", self.t, o.t))
+
+    def __rtruediv__(self, o):
+        o = self._o(o)
+        return NotImplemented if o is None else FS(tm.fop("div", o.t, self.t))
+
+    def __neg__(self):
+        return FS(tm.fneg(self.t))
+
+    def _c(self, o, op):
+        o = self._o(o)
+        return NotImplemented if o is None else S(tm.fcmp(op, self.t, o.t))
+
+    def __lt__(self, o):
+        return self._c(o, "lt")
+
+    def __le__(self, o):
+        return self._c(o, "leq")
+
+    def __gt__(self, o):
+        return self._c(o, "gt")
+
+    def __ge__(self, o):
+        return self._c(o, "geq")
+
+    def eq(self, o):
+        return self._c(o, "eq")
+
+    def ne(self, o):
+        return S(tm.not_(self._c(o, "eq").t))
+
+    def __bool__(self):
+        raise NotModelled("truth value of an IEEE scalar")
+
+
+def fp_var(name, prec="F32"):
+    return FS(tm.fvar(name, prec))
